@@ -82,7 +82,9 @@ def _lift_global_temporaries(t_unit: Any) -> Any:
     # signature but its invoker still passes them (-> segfault): prune them here.
     # A pruned OUTPUT must be zero-size (nothing to write); otherwise the
     # generated kernel never writes one of its outputs, which is reported.
-    used = knl.get_read_variables() | knl.get_written_variables()
+    # (reads inside substitution rules count: expand them for this analysis)
+    expanded = lp.expand_subst(knl) if knl.substitutions else knl
+    used = expanded.get_read_variables() | expanded.get_written_variables()
     pruned = {}
     kept = []
     for a in new_args:
